@@ -39,6 +39,13 @@ def gen_lt(rng):
         elif fam == "const":
             accel = 0
             rate = rng.choice([0, 1, -1, M, -M, -B, rng.randint(-M, M)])
+        elif fam == "top_rate":
+            # rate in the top fifth of the signed 31-bit range, a few ticks, small odd accel / jerk not a multiple of 6: the half- and
+            # sixth-integer corrections are tiny relative to the rate and must still be kept
+            T = rng.randint(3, 40)
+            jerk = rng.choice([1, -1, 2, -2, 4, -4, 5, -5, 7, -7, 0]); accel = rng.choice([0, 1, -1, 2, 3, -3, 10, 11])
+            mag = rng.randint(1666666667, M) - abs(accel) * T - abs(jerk) * T * T
+            rate = rng.choice([1, -1]) * mag
         elif fam == "small":
             accel = rng.randint(-9, 9); rate = rng.randint(-40, 40)
         else:
@@ -77,7 +84,7 @@ def gen_t3(rng):
     """(T, rate, accel, jerk) in the firmware-valid domain; vertex families for the rate parabola."""
     for _ in range(200):
         T = pick_T(rng)
-        fam = rng.choice(["small", "zero_jerk", "vertex_inside", "vertex_edge", "uniform", "zero_first", "zero_first_two", "equal_ends", "vertex_mid", "double_band"])
+        fam = rng.choice(["small", "zero_jerk", "vertex_inside", "vertex_edge", "uniform", "zero_first", "zero_first_two", "equal_ends", "vertex_mid", "double_band", "zero_last", "top_rate"])
         if fam == "double_band":
             # totals of 2^51 .. 2^55 with half- and sixth-integer intermediate terms (odd accel, jerk not a multiple of 6, odd tick count)
             T = rng.randint(2**19, 2**23) | rng.choice([1, 1, 1, 0])
@@ -104,7 +111,7 @@ def gen_t3(rng):
                 # r(1) = -r(T) needs 2*re = -(A*(T+1) + J*T*(T-1)/2)
                 if (jerk * T) % 2: jerk *= 2
                 accel = -(jerk * T) // 2 + rng.choice([0, 0, 0, 1, -1])
-            if fam in ("vertex_inside", "vertex_edge"):
+            if fam in ("vertex_inside", "vertex_edge", "zero_last"):
                 # vertex v = 1/2 - A/J  ->  A = J*(1/2 - v)
                 if fam == "vertex_edge":
                     v2 = rng.choice([3, 2, 4, 2 * T - 3, 2 * T - 4, 2 * T - 2, 1, 2 * T])      # 2v
@@ -122,6 +129,8 @@ def gen_t3(rng):
                 if tot % 2 == 0: re_v = -tot // 2
             if fam == "zero_first":
                 re_v = -accel
+            if fam == "zero_last":             # the move ends at rest (rate exactly 0 at the last tick) with the vertex inside the move
+                re_v = -accel * T - jerk * T * (T - 1) // 2
             if fam == "zero_first_two":
                 re_v = -accel
                 accel = -jerk; re_v = -accel
